@@ -358,6 +358,53 @@ def run_regrid(ctx: Ctx, bspline: bool = True, dense: bool = True) -> None:
         _regrid_dense(ctx)
 
 
+def run_condition_copy(ctx: Ctx) -> None:
+    """The functional form condition(*args, **kwargs): the returned copy is conditioned on exactly what was given."""
+    prog = ctx.prog
+    B = "deepali.spatial.base"
+    fC = prog.func(B, "SpatialTransform.condition")
+    fT = prog.func("deepali.spatial.transformer", "SpatialTransformer.condition")
+    ctx.fn(fC)
+    ctx.fn(fT)
+    ctx.rule("T6x.condition-copy", "t.condition(a, gain=g), t.condition(a) and t.condition(gain=g) of a transform with predicted parameters — and "
+                                   "the same calls on a SpatialTransformer wrapping it — return a new object that holds exactly that "
+                                   "conditioning (positional and keyword part; a keyword-only call is a setter call too, not the getter) and, "
+                                   "when called, evaluates the prediction for it; the receiver keeps its own conditioning")
+    mod, cls, kw = NONRIGID[0]
+    forms = [("positional+keyword", ("A",), {"gain": "G"}), ("positional", ("A",), {}), ("keyword only", (), {"gain": "G"})]
+    for wrapper in (False, True):
+        for what, a_, k_ in forms:
+            def th(wrapper=wrapper, what=what, a_=a_, k_=k_):
+                env = TEnv(ctx, 2)
+                it = env.it
+                t = env.make(mod, cls, kw, "callable")
+                it.method(t, "condition_", Rat.atom("c0"))
+                it.method(t, "update")
+                recv = t
+                if wrapper:
+                    recv = it.new(prog.cls("deepali.spatial.transformer", "PointSetTransformer"), t)
+                args = tuple(Rat.atom(x) for x in a_)
+                kwargs = {k: Rat.atom(v) for k, v in k_.items()}
+                r = it.method(recv, "condition", *args, **kwargs)
+                if isinstance(r, tuple):
+                    return False, (f"condition({what}) returned the current conditioning {r!r:.60} instead of a newly conditioned object "
+                                   f"(the keyword arguments were not recognised as a request to condition)")
+                if r is recv:
+                    return False, "condition(...) returned the receiver itself"
+                got = it.method(r, "condition")
+                want = (tuple(args), dict(kwargs))
+                if tuple(got[0]) != want[0] or dict(got[1]) != want[1]:
+                    return False, (f"condition({what}): the returned object is conditioned on {tuple(got[0])!r}, {dict(got[1])!r} — not on the "
+                                   f"arguments given {want[0]!r}, {want[1]!r}")
+                inner = it.getattr(r, "transform") if wrapper else r
+                inner = it.call_value(inner, [], {}) if callable(inner) and not isinstance(inner, ModObj) else inner
+                if not teq(it.method(inner, "tensor"), fresh_tensor(it, inner, cond=want)):
+                    return False, f"condition({what}): the returned transform does not evaluate the prediction for its conditioning"
+                return True, ""
+            _guard(ctx, "T6x.condition-copy", f"{'transformer' if wrapper else 'transform'}:{what}", fT if wrapper else fC,
+                   f"{'SpatialTransformer' if wrapper else 'SpatialTransform'}.condition({what})", th)
+
+
 def run_unlink_slot(ctx: Ctx) -> None:
     """After unlink_() the transform accepts new parameters given as a plain tensor (the documented argument type of data_)."""
     prog = ctx.prog
